@@ -285,8 +285,11 @@ fn judge_perms<F: Fl>(p: Prod, vals: &[f64], confs: &[(Kind, f64)], s: &mut Sink
             for ((x, y), (ox, oy)) in [(t1.0, t0.0), (t1.1, t0.1)].into_iter().zip([(bs.1, b0.1), (bs.2, b0.2)]) {
                 // missing sides, overflowed / underflowed bounds and identical bounds are
                 // compared as they are
-                if ox.is_infinite() || oy.is_infinite() || ox == oy || ox == 0.0 || oy == 0.0 {
-                    ok &= ox == oy || (p == Prod::Geometric && (ox == 0.0 || oy == 0.0 || ox.is_infinite() || oy.is_infinite()) && (ox.min(oy) > 0.0 || ox.max(oy) == 0.0 || (ox >= 0.0 && oy >= 0.0)));
+                let degenerate = ox.is_infinite() || oy.is_infinite() || (p == Prod::Geometric && (ox == 0.0 || oy == 0.0));
+                if degenerate || ox == oy {
+                    // (geometric: exp over/underflowed in one of the two runs: out of domain as
+                    // long as both are non-negative)
+                    ok &= ox == oy || (p == Prod::Geometric && ox >= 0.0 && oy >= 0.0);
                     continue;
                 }
                 let h = if t0.0.is_finite() && t0.1.is_finite() { 0.5 * (t0.1 - t0.0).abs() } else { (y - e[0].mean_f()).abs() };
